@@ -14,7 +14,7 @@ for d in sorted(glob.glob(V + '/seeded/*/')):
         ran = ['git -C <scratch worktree> apply patch.diff', './check <P> quick (VERIF_REPO=<scratch worktree>)']
     else:
         prop = [mid.split('-')[0]]
-        rnd = {'m': 1, 'n': 2, 'p': 3}[mid.split('-')[1][0]]
+        rnd = {'m': 1, 'n': 2, 'p': 3, 'q': 4}[mid.split('-')[1][0]]
         origin = 'fresh sub-agent (round %d) given only the property text and a scratch worktree' % rnd
         needs = ' '.join(notes.strip().split('\n')[:12])[:900]
         ran = ['git apply patch.diff in the scratch worktree; full test suite in a private network namespace '
